@@ -667,11 +667,47 @@ Section Histories.
 
   Definition eff c d : Z := if d =? DefaultExpiration then expTime c else d.
 
-  Lemma exp_of_pos : forall c d now, 0 < eff c d -> exp_of c d now = now + eff c d.
+  (* int64 wrap-around *)
+  Lemma wrap64_id : forall z, - 9223372036854775808 <= z <= max_i64 -> wrap64 z = z.
   Proof.
-    intros c d now H. unfold exp_of, eff in *.
-    destruct (d =? DefaultExpiration); destruct (_ >? 0) eqn:E; try reflexivity;
-      rewrite Z.gtb_ltb, Z.ltb_ge in E; lia.
+    intros z H. unfold wrap64, max_i64 in *.
+    destruct ((-9223372036854775808 <=? z) && (z <=? 9223372036854775807)); [reflexivity|].
+    rewrite Z.mod_small by lia. lia.
+  Qed.
+
+  Lemma wrap64_over : forall z, max_i64 < z <= 2 * max_i64 -> wrap64 z = z - 18446744073709551616.
+  Proof.
+    intros z H. unfold wrap64, max_i64 in *.
+    replace (z <=? 9223372036854775807) with false by (symmetry; apply Z.leb_gt; lia).
+    rewrite andb_false_r.
+    replace (z + 9223372036854775808)
+      with ((z + 9223372036854775808 - 18446744073709551616) + 1 * 18446744073709551616) by lia.
+    rewrite Z.mod_add by lia. rewrite Z.mod_small by lia. lia.
+  Qed.
+
+  Lemma exp_of_unfold : forall c d now,
+    exp_of c d now = if eff c d >? 0 then wrap64 (now + eff c d)
+                     else if eff c d <? 0 then NoExpiration else 0.
+  Proof. reflexivity. Qed.
+
+  (* the deadline is representable: no wrap-around *)
+  Lemma exp_of_pos : forall c d now,
+    0 < eff c d -> 0 <= now -> now + eff c d <= max_i64 -> exp_of c d now = now + eff c d.
+  Proof.
+    intros c d now H Hn Hm. rewrite exp_of_unfold.
+    replace (eff c d >? 0) with true by (symmetry; apply Z.gtb_lt; lia).
+    apply wrap64_id. unfold max_i64 in *. lia.
+  Qed.
+
+  (* the deadline is past the last representable instant: the stored value is
+     the wrapped sum, a negative number other than -1 *)
+  Lemma exp_of_over : forall c d now,
+    0 < eff c d <= max_i64 -> 0 <= now <= max_i64 -> max_i64 < now + eff c d ->
+    exp_of c d now = now + eff c d - 18446744073709551616 /\ exp_of c d now <= -2.
+  Proof.
+    intros c d now H Hn Hm. rewrite exp_of_unfold.
+    replace (eff c d >? 0) with true by (symmetry; apply Z.gtb_lt; lia).
+    rewrite wrap64_over by lia. split; [reflexivity|]. unfold max_i64 in *. lia.
   Qed.
 
   Lemma exp_of_nonpos : forall c d now, eff c d <= 0 ->
@@ -774,35 +810,44 @@ Section Histories.
   (* ---------- where the entries of the next state come from ---------- *)
 
   (* an entry built by add at instant [now] from an accepted value *)
-  Definition fresh c now it : Prop :=
-    exists v d, it = mkItem v (exp_of c d now) /\ rejects v = false.
+  Definition fresh c d now it : Prop :=
+    exists v, it = mkItem v (exp_of c d now) /\ rejects v = false.
 
-  Lemma fresh_cfg : forall c c' now it, same_cfg c c' -> fresh c now it -> fresh c' now it.
+  Lemma fresh_cfg : forall c c' d now it, same_cfg c c' -> fresh c d now it -> fresh c' d now it.
   Proof.
-    intros c c' now it Hc (v & d & -> & Hr). exists v, d. split; [|exact Hr].
+    intros c c' d now it Hc (v & -> & Hr). exists v. split; [|exact Hr].
     now rewrite (exp_of_cfg V c c' d now Hc).
   Qed.
+
+  (* the duration argument of an operation (SetDefault: DefaultExpiration) *)
+  Definition op_dur o : Z :=
+    match o with
+    | OSet _ _ _ d => d
+    | OUpdate _ _ _ d => d
+    | OMapToCache _ _ d => d
+    | _ => DefaultExpiration
+    end.
 
   Lemma put_entries : forall c k v d now k' it,
     rejects v = false ->
     stored (with_items c (al_put k (mkItem v (exp_of c d now)) (items c))) k' it ->
-    stored c k' it \/ fresh c now it.
+    stored c k' it \/ fresh c d now it.
   Proof.
     intros c k v d now k' it Hr. unfold C08_Proofs.stored; cbn.
     destruct (Z.eq_dec k' k) as [->|Hne].
-    - rewrite al_get_put_same. intros [= <-]. right. now exists v, d.
+    - rewrite al_get_put_same. intros [= <-]. right. now exists v.
     - rewrite al_get_put_other by exact Hne. auto.
   Qed.
 
   Lemma set_entries : forall c k v d now k' it,
-    stored (fst (set c k v d now)) k' it -> stored c k' it \/ fresh c now it.
+    stored (fst (set c k v d now)) k' it -> stored c k' it \/ fresh c d now it.
   Proof.
     intros c k v d now k' it. rewrite set_spec.
     destruct (live c k now); [auto|]. destruct (rejects v) eqn:Hr; [auto|]. now apply put_entries.
   Qed.
 
   Lemma map_to_cache_entries : forall m c d now k' it,
-    stored (fst (map_to_cache c m d now)) k' it -> stored c k' it \/ fresh c now it.
+    stored (fst (map_to_cache c m d now)) k' it -> stored c k' it \/ fresh c d now it.
   Proof.
     induction m as [|kv m IH]; intros c d now k' it; [auto|].
     rewrite map_to_cache_cons.
@@ -822,7 +867,7 @@ Section Histories.
   Qed.
 
   Lemma step_entries : forall c o now k it,
-    wf c -> stored (fst (step c o now)) k it -> stored c k it \/ fresh c now it.
+    wf c -> stored (fst (step c o now)) k it -> stored c k it \/ fresh c (op_dur o) now it.
   Proof.
     intros c o now k' it H. destruct o; cbn; auto.
     - pose proof (set_entries c k v d now k' it) as W. now destruct (set c k v d now).
@@ -843,46 +888,61 @@ Section Histories.
   (* nothing rejected is ever stored *)
   Definition no_rejected c : Prop := forall k it, stored c k it -> rejects (object it) = false.
   (* anchors: expiration is -1 (never), 0 (zero default), or a positive deadline *)
+  (* … or, when now + d exceeded MaxInt64, the wrapped sum: some value <= -2 *)
   Definition exp_shape c : Prop :=
     forall k it, stored c k it ->
-      expiration it = -1 \/ (expiration it = 0 /\ expTime c = 0) \/ 0 < expiration it.
+      expiration it = -1 \/ (expiration it = 0 /\ expTime c = 0) \/ 0 < expiration it \/
+      expiration it <= -2.
 
-  Lemma fresh_shape : forall c now it, 0 <= now -> fresh c now it ->
+  (* instants and durations are int64 values (UnixNano is positive) *)
+  Definition in_range (ops : list (op V * Z)) : Prop :=
+    Forall (fun on => 0 <= snd on <= max_i64 /\ op_dur (fst on) <= max_i64) ops.
+
+  Lemma eff_le : forall c d, d <= max_i64 -> expTime c <= max_i64 -> eff c d <= max_i64.
+  Proof. intros c d H1 H2. unfold eff. now destruct (d =? DefaultExpiration). Qed.
+
+  Lemma fresh_shape : forall c d now it,
+    0 <= now <= max_i64 -> d <= max_i64 -> expTime c <= max_i64 -> fresh c d now it ->
     rejects (object it) = false /\
-    (expiration it = -1 \/ (expiration it = 0 /\ expTime c = 0) \/ 0 < expiration it).
+    (expiration it = -1 \/ (expiration it = 0 /\ expTime c = 0) \/ 0 < expiration it \/
+     expiration it <= -2).
   Proof.
-    intros c now it Hnow (v & d & -> & Hr). split; [exact Hr|]. cbn [expiration].
+    intros c d now it Hnow Hd He (v & -> & Hr). split; [exact Hr|]. cbn [expiration].
+    pose proof (eff_le c d Hd He) as Hle.
     destruct (Z_lt_le_dec 0 (eff c d)) as [Hp|Hn].
-    - rewrite exp_of_pos by exact Hp. lia.
-    - destruct (exp_of_nonpos c d now Hn) as [[-> _]|[-> He]]; [auto|].
-      right; left. split; [reflexivity|]. unfold eff in He.
-      destruct (d =? DefaultExpiration) eqn:E; [exact He|]. apply Z.eqb_neq in E. unfold DefaultExpiration in E. lia.
+    - destruct (Z_le_gt_dec (now + eff c d) max_i64) as [Hs|Hs].
+      + rewrite exp_of_pos by lia. lia.
+      + destruct (exp_of_over c d now) as [_ Ho]; [lia|lia|lia|]. auto.
+    - destruct (exp_of_nonpos c d now Hn) as [[-> _]|[-> He0]]; [auto|].
+      right; left. split; [reflexivity|]. unfold eff in He0.
+      destruct (d =? DefaultExpiration) eqn:E; [exact He0|]. apply Z.eqb_neq in E. unfold DefaultExpiration in E. lia.
   Qed.
 
   Lemma reachable_invariants : forall ops e ci,
     let c := fst (run (new e ci) ops) in
-    wf c /\ no_rejected c /\ (Forall (fun on => 0 <= snd on) ops -> exp_shape c).
+    wf c /\ no_rejected c /\ (e <= max_i64 -> in_range ops -> exp_shape c).
   Proof.
     intros ops e ci.
     assert (G : forall ops c, wf c -> no_rejected c ->
               let c' := fst (run c ops) in
               wf c' /\ no_rejected c' /\
-              (Forall (fun on => 0 <= snd on) ops -> exp_shape c -> exp_shape c')).
+              (expTime c <= max_i64 -> in_range ops -> exp_shape c -> exp_shape c')).
     { clear ops. induction ops as [|[o now] r IH]; intros c Hwf Hnr; [cbn; auto|].
       rewrite run_cons. cbn [fst].
       assert (Hwf1 := step_wf c o now Hwf).
       assert (Hnr1 : no_rejected (fst (step c o now))).
-      { intros k it Hs. destruct (step_entries c o now k it Hwf Hs) as [H|(v & d & -> & Hr)]; [eauto|exact Hr]. }
+      { intros k it Hs. destruct (step_entries c o now k it Hwf Hs) as [H|(v & -> & Hr)]; [eauto|exact Hr]. }
       destruct (IH _ Hwf1 Hnr1) as (A & B & C). split; [exact A|split; [exact B|]].
-      intros Hall Hsh. inversion Hall as [|x l Hnow Hall']; subst. cbn [snd] in Hnow.
-      apply C; [exact Hall'|].
-      intros k it Hs. destruct (step_cfg c o now) as [Hcfg _]. rewrite Hcfg.
+      intros He Hall Hsh. inversion Hall as [|x l [Hnow Hd] Hall']; subst. cbn [fst snd] in Hnow, Hd.
+      destruct (step_cfg c o now) as [Hcfg _].
+      apply C; [now rewrite Hcfg|exact Hall'|].
+      intros k it Hs. rewrite Hcfg.
       destruct (step_entries c o now k it Hwf Hs) as [H|H]; [eauto|].
-      now apply (fresh_shape c now it Hnow). }
+      now apply (fresh_shape c (op_dur o) now it Hnow Hd He). }
     destruct (G ops (new e ci)) as (A & B & C).
     - unfold C08_Proofs.wf; cbn. constructor.
     - intros k it. unfold C08_Proofs.stored; cbn. discriminate.
-    - split; [exact A|split; [exact B|]]. intros Hall. apply C; [exact Hall|].
+    - split; [exact A|split; [exact B|]]. intros He Hall. apply C; [exact He|exact Hall|].
       intros k it. unfold C08_Proofs.stored; cbn. discriminate.
   Qed.
 
@@ -1037,6 +1097,34 @@ Section Histories.
      deadline.  The history after the store may contain anything except
      Update/Delete of the key and Flush: Set and MapToCache on the key (they
      fail), DeleteExpired and ticks of the janitor at any instants. *)
+  (* the general form: whatever the clock does, as long as no instant of the
+     history (nor the instant of the final Get) is past a positive stored
+     deadline; an entry whose stored expiration is not positive has nothing to
+     fear from any instant *)
+  Lemma live_while_unexpired : forall c k v d t0 c1 ops now,
+    wf c -> stored_by c k v d t0 c1 ->
+    Forall (fun on => overwrites k (fst on) = false) ops ->
+    (0 < exp_of c d t0 -> Forall (fun t => t <= exp_of c d t0) (map snd ops ++ [now])) ->
+    let c2 := fst (run c1 ops) in
+    stored c2 k (mkItem v (exp_of c d t0)) /\
+    get c2 k now = (Some (mkItem v (exp_of c d t0)), None).
+  Proof.
+    intros c k v d t0 c1 ops now Hwf Hst Hov Hdl c2.
+    destruct (stored_by_stores c k v d t0 c1 Hwf Hst) as [Hwf1 Hs1].
+    assert (Hnp : forall t, In t (map snd ops ++ [now]) -> purgeable (mkItem v (exp_of c d t0)) t = false).
+    { intros t Ht. destruct (purgeable _ t) eqn:E; [|reflexivity].
+      apply purgeable_iff in E. cbn [expiration] in E. destruct E as [E1 E2].
+      specialize (Hdl E1). rewrite Forall_forall in Hdl. specialize (Hdl t Ht). lia. }
+    assert (Hs2 : stored c2 k (mkItem v (exp_of c d t0))).
+    { apply run_keeps; [exact Hwf1|exact Hs1|].
+      rewrite Forall_forall in *. intros on Hin. split; [now apply Hov|].
+      apply Hnp. apply in_or_app. left. now apply in_map. }
+    split; [exact Hs2|].
+    apply get_live_iff. split; [exact Hs2|].
+    unfold C08_Proofs.live. rewrite Hs2. rewrite Hnp; [reflexivity|].
+    apply in_or_app. right. now left.
+  Qed.
+
   Lemma live_until_deadline : forall c k v d t0 c1 ops now,
     wf c -> stored_by c k v d t0 c1 ->
     Forall (fun on => overwrites k (fst on) = false) ops ->
@@ -1046,19 +1134,13 @@ Section Histories.
     stored c2 k (mkItem v (exp_of c d t0)) /\
     get c2 k now = (Some (mkItem v (exp_of c d t0)), None).
   Proof.
-    intros c k v d t0 c1 ops now Hwf Hst Hov Hclk Hdl c2.
-    destruct (stored_by_stores c k v d t0 c1 Hwf Hst) as [Hwf1 Hs1].
+    intros c k v d t0 c1 ops now Hwf Hst Hov Hclk Hdl.
+    apply live_while_unexpired; [exact Hwf|exact Hst|exact Hov|].
+    intros Hp. specialize (Hdl Hp).
     destruct (nondecr_bound _ _ _ Hclk) as [_ Hle].
-    assert (Hnp : forall t, t <= now -> purgeable (mkItem v (exp_of c d t0)) t = false).
-    { intros t Ht. destruct (purgeable _ t) eqn:E; [|reflexivity].
-      apply purgeable_iff in E. cbn [expiration] in E. lia. }
-    assert (Hs2 : stored c2 k (mkItem v (exp_of c d t0))).
-    { apply run_keeps; [exact Hwf1|exact Hs1|].
-      rewrite Forall_forall in *. intros on Hin. split; [now apply Hov|].
-      apply Hnp. apply Hle. now apply in_map. }
-    split; [exact Hs2|].
-    apply get_live_iff. split; [exact Hs2|].
-    unfold C08_Proofs.live. rewrite Hs2. now rewrite Hnp by lia.
+    apply Forall_app. split.
+    - eapply Forall_impl; [|exact Hle]. cbn. intros a Ha. lia.
+    - constructor; [exact Hdl|constructor].
   Qed.
 
   (* Expired at every instant after the deadline — whatever the clock did in
@@ -1067,13 +1149,13 @@ Section Histories.
   Lemma expired_after_deadline : forall c k v d t0 c1 ops now,
     wf c -> stored_by c k v d t0 c1 ->
     Forall (fun on => touches k (fst on) = false) ops ->
-    0 <= t0 -> 0 < eff c d -> t0 + eff c d < now ->
+    0 <= t0 -> 0 < eff c d -> t0 + eff c d <= max_i64 -> t0 + eff c d < now ->
     let c2 := fst (run c1 ops) in
     (exists e, get c2 k now = (None, Some e)) /\ live c2 k now = false.
   Proof.
-    intros c k v d t0 c1 ops now Hwf Hst Ht Ht0 Heff Hnow c2.
+    intros c k v d t0 c1 ops now Hwf Hst Ht Ht0 Heff Hmax Hnow c2.
     destruct (stored_by_stores c k v d t0 c1 Hwf Hst) as [Hwf1 Hs1].
-    rewrite exp_of_pos in Hs1 by exact Heff.
+    rewrite exp_of_pos in Hs1 by assumption.
     assert (H2 : same_or_gone c2 k (mkItem v (t0 + eff c d))).
     { apply run_same_or_gone; [exact Hwf1|now left|exact Ht]. }
     assert (Hl : live c2 k now = false).
@@ -1107,12 +1189,12 @@ Section Histories.
     wf c -> stored_by c k v d t0 c1 ->
     Forall (fun on => touches k (fst on) = false) ops1 ->
     Forall (fun on => touches k (fst on) = false) ops2 ->
-    0 <= t0 -> 0 < eff c d -> t0 + eff c d < tau -> 0 < cleanupInt c ->
+    0 <= t0 -> 0 < eff c d -> t0 + eff c d <= max_i64 -> t0 + eff c d < tau -> 0 < cleanupInt c ->
     al_get k (items (fst (run c1 (ops1 ++ (OTick, tau) :: ops2)))) = None.
   Proof.
-    intros c k v d t0 c1 ops1 tau ops2 Hwf Hst H1 H2 Ht0 Heff Htau Hci.
+    intros c k v d t0 c1 ops1 tau ops2 Hwf Hst H1 H2 Ht0 Heff Hmax Htau Hci.
     destruct (stored_by_stores c k v d t0 c1 Hwf Hst) as [Hwf1 Hs1].
-    rewrite exp_of_pos in Hs1 by exact Heff.
+    rewrite exp_of_pos in Hs1 by assumption.
     set (it := mkItem v (t0 + eff c d)) in *.
     rewrite run_app, run_cons. cbn [fst].
     set (ca := fst (run c1 ops1)).
@@ -1148,6 +1230,98 @@ Section Histories.
         unfold C08_Proofs.stored in Hx; rewrite E in Hx; [|discriminate].
       injection Hx as Hx. destruct j as [oj ej]. cbn in Hx. injection Hx as Hx. lia. }
     unfold C08_Proofs.stored in Hc. rewrite (G ops2 (tick ca tau)) in Hc; [discriminate|now apply tick_wf|exact Hb|exact H2].
+  Qed.
+
+  (* ---------- IsExpired over histories ---------- *)
+
+  (* After any history that does not store under the key again (ticks and
+     DeleteExpired included), IsExpired answers: still stored, and the instant
+     is past the (positive, stored) deadline. *)
+  Lemma is_expired_history : forall c k v d t0 c1 ops now,
+    wf c -> stored_by c k v d t0 c1 ->
+    Forall (fun on => touches k (fst on) = false) ops ->
+    let c2 := fst (run c1 ops) in
+    is_expired c2 k now = true <->
+    stored c2 k (mkItem v (exp_of c d t0)) /\ 0 < exp_of c d t0 < now.
+  Proof.
+    intros c k v d t0 c1 ops now Hwf Hst Ht c2.
+    destruct (stored_by_stores c k v d t0 c1 Hwf Hst) as [Hwf1 Hs1].
+    assert (H2 : same_or_gone c2 k (mkItem v (exp_of c d t0))).
+    { apply run_same_or_gone; [exact Hwf1|now left|exact Ht]. }
+    rewrite is_expired_iff. split.
+    - intros (it & Hs & Hx). destruct H2 as [H2|H2].
+      + unfold C08_Proofs.stored in *. rewrite H2 in Hs. injection Hs as <-. cbn in Hx. auto.
+      + unfold C08_Proofs.stored in Hs. rewrite H2 in Hs. discriminate.
+    - intros [Hs Hx]. exists (mkItem v (exp_of c d t0)). auto.
+  Qed.
+
+  (* ---------- a ticker that fires at least every g nanoseconds ---------- *)
+
+  (* the instants of the janitor's ticks in a history *)
+  Definition tick_instants (ops : list (op V * Z)) : list Z :=
+    map snd (filter (fun on => match fst on with OTick => true | _ => false end) ops).
+
+  (* consecutive ticks are at most g apart, the first at most g after t *)
+  Fixpoint regular (g t : Z) (ts : list Z) : Prop :=
+    match ts with
+    | [] => True
+    | x :: r => t <= x <= t + g /\ regular g x r
+    end.
+
+  Lemma regular_hits : forall g ts t D,
+    regular g t ts -> t <= D -> (exists x, In x ts /\ D < x) ->
+    exists pre tau post, ts = pre ++ tau :: post /\ D < tau <= D + g /\ Forall (fun x => x <= D) pre.
+  Proof.
+    intros g; induction ts as [|x r IH]; intros t D Hr Ht [y [Hy HD]]; [contradiction|].
+    cbn in Hr. destruct Hr as [Hx Hr].
+    destruct (Z_lt_le_dec D x) as [Hlt|Hle].
+    - exists [], x, r. split; [reflexivity|]. split; [lia|constructor].
+    - destruct Hy as [->|Hy]; [lia|].
+      destruct (IH x D Hr Hle (ex_intro _ y (conj Hy HD))) as (pre & tau & post & -> & Htau & Hpre).
+      exists (x :: pre), tau, post. split; [reflexivity|]. split; [exact Htau|]. now constructor.
+  Qed.
+
+  Lemma tick_instants_split : forall ops pre tau post,
+    tick_instants ops = pre ++ tau :: post ->
+    exists ops1 ops2, ops = ops1 ++ (OTick, tau) :: ops2 /\ tick_instants ops1 = pre.
+  Proof.
+    induction ops as [|[o t] r IH]; intros pre tau post H; [destruct pre; discriminate|].
+    unfold tick_instants in H. cbn [filter fst] in H.
+    destruct o; try (destruct (IH pre tau post H) as (o1 & o2 & -> & Hp);
+                     eexists (_ :: o1), o2; split; [reflexivity|exact Hp]).
+    cbn [map snd] in H. destruct pre as [|p pre].
+    - injection H as -> _. exists [], r. split; reflexivity.
+    - injection H as -> H. destruct (IH pre tau post H) as (o1 & o2 & -> & Hp).
+      exists ((OTick, p) :: o1), o2. split; [reflexivity|]. unfold tick_instants in *. cbn. now rewrite Hp.
+  Qed.
+
+  Lemma Forall_firstn_ : forall {A} (P : A -> Prop) n l, Forall P l -> Forall P (firstn n l).
+  Proof.
+    intros A P n l H. rewrite <- (firstn_skipn n l) in H. now apply Forall_app in H as [H _].
+  Qed.
+
+  (* If the runtime fires the ticker at least every g ns — the first time at
+     most g after an instant t that is not past the deadline, e.g. the instant
+     of the store — then the expired entry is removed by a tick that comes at
+     most g after its deadline, and is absent from every later state. *)
+  Lemma gone_within_g_of_regular_ticker : forall c k v d t0 c1 ops g t,
+    wf c -> stored_by c k v d t0 c1 ->
+    Forall (fun on => touches k (fst on) = false) ops ->
+    0 <= t0 -> 0 < eff c d -> t0 + eff c d <= max_i64 -> 0 < cleanupInt c ->
+    regular g t (tick_instants ops) -> t <= t0 + eff c d ->
+    (exists x, In x (tick_instants ops) /\ t0 + eff c d < x) ->
+    exists ops1 tau ops2,
+      ops = ops1 ++ (OTick, tau) :: ops2 /\
+      t0 + eff c d < tau <= t0 + eff c d + g /\
+      forall n, al_get k (items (fst (run c1 (ops1 ++ (OTick, tau) :: firstn n ops2)))) = None.
+  Proof.
+    intros c k v d t0 c1 ops g t Hwf Hst Ht Ht0 Heff Hmax Hci Hreg Hle Hex.
+    destruct (regular_hits g _ t _ Hreg Hle Hex) as (pre & tau & post & Hsplit & Htau & _).
+    destruct (tick_instants_split ops pre tau post Hsplit) as (ops1 & ops2 & -> & _).
+    exists ops1, tau, ops2. split; [reflexivity|]. split; [exact Htau|].
+    apply Forall_app in Ht as [H1 H2]. inversion H2 as [|x l _ H2']; subst.
+    intros n. apply (gone_after_tick_past_deadline c k v d t0 c1 ops1 tau (firstn n ops2)); try assumption; try lia.
+    now apply Forall_firstn_.
   Qed.
 
 End Histories.
@@ -1186,14 +1360,23 @@ Section Refinement.
     rewrite (al_get_map abs_item). destruct (al_get k (items c)) as [it|]; cbn; [apply e_live_abs|reflexivity].
   Qed.
 
-  Lemma abs_fresh : forall c v d now, 0 <= now ->
+  (* instants are int64 (UnixNano, positive), durations are int64 *)
+  Definition ok c d now : Prop := 0 <= now <= max_i64 /\ d <= max_i64 /\ expTime c <= max_i64.
+
+  Lemma abs_fresh : forall c v d now, ok c d now ->
     abs_item (mkItem v (exp_of c d now)) = (v, deadline_of (abs c) d now).
   Proof.
-    intros c v d now Hnow. unfold abs_item, deadline_of, exp_of. cbn [object expiration s_default abs].
-    unfold DefaultExpiration.
-    set (d' := if d =? 0 then expTime c else d).
+    intros c v d now (Hnow & Hd & He). unfold abs_item, deadline_of. cbn [object expiration s_default abs].
+    rewrite (exp_of_unfold V). pose proof (eff_le V c d Hd He) as Hle.
+    unfold eff, DefaultExpiration in *.
+    set (d' := if d =? 0 then expTime c else d) in *.
     destruct (d' >? 0) eqn:E.
-    - apply Z.gtb_lt in E. replace (now + d' >? 0) with true; [reflexivity|]. symmetry. apply Z.gtb_lt. lia.
+    - apply Z.gtb_lt in E. destruct (now + d' <=? max_i64) eqn:F.
+      + apply Z.leb_le in F. rewrite (wrap64_id (now + d')) by (unfold max_i64 in *; lia).
+        replace (now + d' >? 0) with true; [reflexivity|]. symmetry. apply Z.gtb_lt. lia.
+      + apply Z.leb_gt in F. rewrite (wrap64_over (now + d')) by lia.
+        replace (now + d' - 18446744073709551616 >? 0) with false; [reflexivity|].
+        symmetry. rewrite Z.gtb_ltb. apply Z.ltb_ge. unfold max_i64 in *. lia.
     - destruct (d' <? 0); reflexivity.
   Qed.
 
@@ -1210,7 +1393,7 @@ Section Refinement.
     apply (filter_map_comm abs_item). intros e _. cbn. unfold keep. apply e_live_abs.
   Qed.
 
-  Lemma store_refines : forall c k v d now, 0 <= now ->
+  Lemma store_refines : forall c k v d now, ok c d now ->
     s_store V rejects (abs c) k v d now =
     (abs (fst (update c k v d now)), is_some (snd (update c k v d now))).
   Proof.
@@ -1219,7 +1402,7 @@ Section Refinement.
     now rewrite abs_put, abs_fresh.
   Qed.
 
-  Lemma set_refines : forall c k v d now, 0 <= now ->
+  Lemma set_refines : forall c k v d now, ok c d now ->
     s_set V rejects (abs c) k v d now = (abs (fst (set c k v d now)), is_some (snd (set c k v d now))).
   Proof.
     intros c k v d now Hnow. unfold s_set. rewrite abs_live, set_spec.
@@ -1227,7 +1410,7 @@ Section Refinement.
     rewrite (store_refines c k v d now Hnow), update_spec. now destruct (rejects v).
   Qed.
 
-  Lemma map_to_cache_refines : forall m c e d now, 0 <= now ->
+  Lemma map_to_cache_refines : forall m c e d now, ok c d now ->
     fold_left (fun (acc : spec V * bool) (kv : Z * V) =>
                  let '(s1, f1) := s_set V rejects (fst acc) (fst kv) (snd kv) d now in
                  (s1, snd acc || f1)) m (abs c, is_some e)
@@ -1238,17 +1421,18 @@ Section Refinement.
   Proof.
     induction m as [|kv m IH]; intros c e d now Hnow; [reflexivity|].
     cbn [fold_left fst snd]. rewrite (set_refines c (fst kv) (snd kv) d now Hnow).
-    destruct (set c (fst kv) (snd kv) d now) as [c1 e1]. cbn [fst snd].
+    pose proof (set_cfg V rejects c (fst kv) (snd kv) d now) as [Hcfg _].
+    destruct (set c (fst kv) (snd kv) d now) as [c1 e1]. cbn [fst snd] in *.
     replace (is_some e || is_some e1) with (is_some (join e e1)) by (destruct e, e1; reflexivity).
-    now apply IH.
+    apply IH. destruct Hnow as (A & B & C). repeat split; try tauto. now rewrite Hcfg.
   Qed.
 
-  Lemma step_refines : forall c o now, wf c -> 0 <= now ->
+  Lemma step_refines : forall c o now, wf c -> ok c (op_dur V o) now ->
     spec_step (abs c) o now = (abs (fst (step c o now)), project (snd (step c o now))).
   Proof.
-    intros c o now Hwf Hnow. destruct o; cbn [C08_Model.step C08_Model.spec_step].
+    intros c o now Hwf Hnow. destruct o; cbn [C08_Model.step C08_Model.spec_step op_dur] in *.
     - rewrite (set_refines c k v d now Hnow). now destruct (set c k v d now).
-    - unfold set_default, DefaultExpiration. rewrite (set_refines c k v 0 now Hnow). now destruct (set c k v 0 now).
+    - unfold set_default, DefaultExpiration in *. rewrite (set_refines c k v 0 now Hnow). now destruct (set c k v 0 now).
     - rewrite (store_refines c k v d now Hnow). now destruct (update c k v d now).
     - cbn [fst snd project]. rewrite get_spec, abs_sm, (al_get_map abs_item).
       destruct (al_get k (items c)) as [it|]; cbn; [|reflexivity].
@@ -1270,22 +1454,24 @@ Section Refinement.
       now rewrite abs_filter.
   Qed.
 
-  Lemma run_refines : forall ops c, wf c -> Forall (fun on => 0 <= snd on) ops ->
+  Lemma run_refines : forall ops c, wf c -> expTime c <= max_i64 -> in_range V ops ->
     spec_run (abs c) ops = (abs (fst (run c ops)), map project (snd (run c ops))).
   Proof.
-    induction ops as [|[o now] r IH]; intros c Hwf Hall; [reflexivity|].
-    inversion Hall as [|x l Hnow Hall']; subst. cbn [snd] in Hnow.
-    cbn [C08_Model.spec_run]. rewrite (step_refines c o now Hwf Hnow).
+    induction ops as [|[o now] r IH]; intros c Hwf He Hall; [reflexivity|].
+    inversion Hall as [|x l [Hnow Hd] Hall']; subst. cbn [fst snd] in Hnow, Hd.
+    cbn [C08_Model.spec_run]. rewrite (step_refines c o now Hwf) by (repeat split; tauto).
     rewrite (run_cons V rejects). cbn [fst snd map].
-    rewrite (IH (fst (step c o now)) (step_wf V rejects c o now Hwf) Hall'). reflexivity.
+    destruct (step_cfg V rejects c o now) as [Hcfg _].
+    rewrite (IH (fst (step c o now)) (step_wf V rejects c o now Hwf)); [reflexivity| |exact Hall'].
+    now rewrite Hcfg.
   Qed.
 
-  Lemma refines_spec : forall e ci ops, Forall (fun on => 0 <= snd on) ops ->
+  Lemma refines_spec : forall e ci ops, e <= max_i64 -> in_range V ops ->
     spec_run (spec_new e ci) ops =
     (abs (fst (run (new e ci) ops)), map project (snd (run (new e ci) ops))).
   Proof.
-    intros e ci ops Hall. change (spec_new e ci) with (abs (new (V:=V) e ci)).
-    apply run_refines; [|exact Hall]. unfold C08_Proofs.wf; cbn. constructor.
+    intros e ci ops He Hall. change (spec_new e ci) with (abs (new (V:=V) e ci)).
+    apply run_refines; [|exact He|exact Hall]. unfold C08_Proofs.wf; cbn. constructor.
   Qed.
 
 End Refinement.
@@ -1551,30 +1737,57 @@ Section Corollaries.
     wf V c -> stored_by V rejects c k v d t0 c1 ->
     Forall (fun on => overwrites V k (fst on) = false) ops ->
     nondecr t0 (map snd ops ++ [now]) ->
-    0 < eff V c d -> now <= t0 + eff V c d ->
+    0 <= t0 -> 0 < eff V c d -> t0 + eff V c d <= max_i64 -> now <= t0 + eff V c d ->
     C08_Model.get (fst (run c1 ops)) k now = (Some (mkItem v (t0 + eff V c d)), None).
   Proof.
-    intros c k v d t0 c1 ops now Hwf Hst Hov Hclk Heff Hnow.
+    intros c k v d t0 c1 ops now Hwf Hst Hov Hclk Ht0 Heff Hmax Hnow.
     destruct (live_until_deadline V rejects c k v d t0 c1 ops now Hwf Hst Hov Hclk) as [_ H].
-    - rewrite exp_of_pos by exact Heff. lia.
-    - now rewrite exp_of_pos in H by exact Heff.
+    - rewrite exp_of_pos by assumption. lia.
+    - now rewrite exp_of_pos in H by assumption.
   Qed.
 
+  (* no clock hypothesis at all: the instants of the history are arbitrary *)
   Lemma no_expiry_never_expires : forall c k v d t0 c1 (ops : list (op V * Z)) now,
     wf V c -> stored_by V rejects c k v d t0 c1 ->
     Forall (fun on => overwrites V k (fst on) = false) ops ->
-    nondecr t0 (map snd ops ++ [now]) ->
     eff V c d <= 0 ->
     let c2 := fst (run c1 ops) in
     exists x, (x = -1 \/ x = 0) /\ stored V c2 k (mkItem v x) /\
-              C08_Model.get c2 k now = (Some (mkItem v x), None).
+              C08_Model.get c2 k now = (Some (mkItem v x), None) /\
+              is_expired c2 k now = false.
   Proof.
-    intros c k v d t0 c1 ops now Hwf Hst Hov Hclk Heff c2.
+    intros c k v d t0 c1 ops now Hwf Hst Hov Heff c2.
     assert (Hx : exp_of c d t0 = -1 \/ exp_of c d t0 = 0)
       by (destruct (exp_of_nonpos V c d t0 Heff) as [[-> _]|[-> _]]; auto).
-    destruct (live_until_deadline V rejects c k v d t0 c1 ops now Hwf Hst Hov Hclk) as [H1 H2].
+    destruct (live_while_unexpired V rejects c k v d t0 c1 ops now Hwf Hst Hov) as [H1 H2].
     - lia.
-    - exists (exp_of c d t0). auto.
+    - exists (exp_of c d t0). repeat split; auto.
+      subst c2. destruct (is_expired (fst (run c1 ops)) k now) eqn:E; [|reflexivity].
+      apply is_expired_iff in E as (it & Hs & Hxx). unfold stored in *.
+      rewrite H1 in Hs. injection Hs as <-. cbn [expiration] in Hxx. lia.
+  Qed.
+
+  (* a positive duration whose deadline lies beyond the last int64 instant:
+     the stored value is the wrapped sum (negative), the entry is live at every
+     instant and survives DeleteExpired and the janitor for ever *)
+  Lemma deadline_overflow_never_expires : forall c k v d t0 c1 (ops : list (op V * Z)) now,
+    wf V c -> stored_by V rejects c k v d t0 c1 ->
+    Forall (fun on => overwrites V k (fst on) = false) ops ->
+    0 <= t0 <= max_i64 -> 0 < eff V c d <= max_i64 -> max_i64 < t0 + eff V c d ->
+    let c2 := fst (run c1 ops) in
+    exists x, x = t0 + eff V c d - 18446744073709551616 /\ x <= -2 /\
+              stored V c2 k (mkItem v x) /\
+              C08_Model.get c2 k now = (Some (mkItem v x), None) /\
+              is_expired c2 k now = false.
+  Proof.
+    intros c k v d t0 c1 ops now Hwf Hst Hov Ht0 Heff Hover c2.
+    destruct (exp_of_over V c d t0 Heff Ht0 Hover) as [Hx Hneg].
+    destruct (live_while_unexpired V rejects c k v d t0 c1 ops now Hwf Hst Hov) as [H1 H2].
+    - lia.
+    - exists (exp_of c d t0). repeat split; auto.
+      subst c2. destruct (is_expired (fst (run c1 ops)) k now) eqn:E; [|reflexivity].
+      apply is_expired_iff in E as (it & Hs & Hxx). unfold stored in *.
+      rewrite H1 in Hs. injection Hs as <-. cbn [expiration] in Hxx. lia.
   Qed.
 
   Lemma is_expired_shipped_always_false : forall W (c : cache W) k now, is_expired_shipped c k now = false.
